@@ -21,9 +21,9 @@ EXHAUSTIVE = ("8-bit domain, pure functions, enumerated completely in every run 
               "(2 x 9 x 4 x 33409 = 2405448 calls, counter exhaustive.tiered_ranges). "
               "The thorough tier additionally enumerates completely, through a real 256-document index holding every "
               "value of the domain once, for NUMERIC(int, 8, signed in {True, False}): every NumericRange(start, end, startexcl, "
-              "endexcl) of the same (start, end, flags) space for shift_step in {1, 4} (4 x 4 x 33409 = 534544 searches) and "
-              "every closed NumericRange(start, end) of the same (start, end) space for shift_step in {0, 8}, which on 8 bits "
-              "both compile to a single full-precision term range (4 x 33409 = 133636 searches); together 668180 searches, "
+              "endexcl) of the same (start, end, flags) space for shift_step 1 (2 x 4 x 33409 = 267272 searches) and every closed "
+              "NumericRange(start, end) of the same (start, end) space for shift_step 4 and shift_step 0 (4 x 33409 = 133636 "
+              "searches; on 8 bits shift_step 8 compiles to the same single term range as 0); together 400908 searches, "
               "counter exhaustive.searched. "
               "Everything wider than 8 bits (16/32/64-bit ints, floats, Decimals, datetimes) is sampled with boundary bias, not exhaustive.")
 RULE = ("exhaustive part: see exhaustive_scope. Sampled part: a case = one field configuration (int 8/16/32/64 x signed/"
@@ -58,7 +58,7 @@ ASSUMPTIONS = [
     "on single-valued cases",
 ]
 SHARDS = {"quick": 4, "thorough": 16}
-BUDGET_S = {"quick": 80, "thorough": 840}
+BUDGET_S = {"quick": 80, "thorough": 900}
 FLOORS = {
     "quick": {"exhaustive.split_ranges": 263168, "exhaustive.tiered_ranges": 2405448, "exhaustive.codec8": 512,
               "range.searched": 4500, "range.nontrivial": 3000, "range.path.parser": 900, "point.searched": 700,
@@ -66,11 +66,11 @@ FLOORS = {
               "cfg.int": 90, "cfg.float": 40, "cfg.decimal": 25, "cfg.datetime": 25, "cfg.multivalued": 30,
               "range.zero_sign_relaxed": 3},
     "thorough": {"exhaustive.split_ranges": 263168, "exhaustive.tiered_ranges": 2405448, "exhaustive.codec8": 512,
-                 "exhaustive.searched": 668180,
-                 "range.searched": 50000, "range.nontrivial": 36000, "range.path.parser": 10000, "point.searched": 8000,
-                 "tiered.sampled": 18000, "codec.values": 58000, "sort.checked": 3400, "ood.index": 14000, "ood.query": 12900,
-                 "cfg.int": 1000, "cfg.float": 400, "cfg.decimal": 280, "cfg.datetime": 280, "cfg.multivalued": 400,
-                 "range.zero_sign_relaxed": 50},
+                 "exhaustive.searched": 400908,
+                 "range.searched": 32000, "range.nontrivial": 23000, "range.path.parser": 7000, "point.searched": 5000,
+                 "tiered.sampled": 11500, "codec.values": 36000, "sort.checked": 2100, "ood.index": 10000, "ood.query": 8000,
+                 "cfg.int": 670, "cfg.float": 260, "cfg.decimal": 190, "cfg.datetime": 200, "cfg.multivalued": 250,
+                 "range.zero_sign_relaxed": 40},
 }
 
 
@@ -840,7 +840,7 @@ def exhaustive_searched(ctx):
     sh, n = ctx.shard, ctx.nshards
     for signed in (True, False):
         dom = list(range(-128, 128)) if signed else list(range(256))
-        for step in (0, 1, 4, 8):
+        for step in (1, 4, 0):
             field = fields.NUMERIC(int, 8, signed=signed, shift_step=step)
             ix = RamStorage().create_index(fields.Schema(id=fields.STORED, n=field))
             wr = ix.writer()
@@ -848,8 +848,9 @@ def exhaustive_searched(ctx):
                 wr.add_document(id=i, n=v)
             wr.commit()
             key = "int8%s,step=%d" % ("s" if signed else "u", step)
-            # on 8 bits steps 0 and 8 both compile to one full-precision term range: closed bounds only there
-            flagset = (False, True) if step in (1, 4) else (False,)
+            # all four exclusivity pairs on the deepest tiering (step 1); closed bounds on step 4 and on the untiered field
+            # (the flags only shift the bounds by one, which the pure enumeration (3) covers for every step)
+            flagset = (False, True) if step == 1 else (False,)
             with ix.searcher() as s:
                 ids = {dn: s.stored_fields(dn)["id"] for dn in s.reader().all_doc_ids()}
                 bad = False
@@ -897,7 +898,7 @@ def run(ctx):
         ctx.cur_idx = -1
         exhaustive_pure(ctx)
     if ctx.replay_idx is None or ctx.replay_idx >= 0:
-        for idx in ctx.cases(quick=150, thorough=400):
+        for idx in ctx.cases(quick=150, thorough=250):
             rng = ctx.rng(idx)
             ctx.reseed_global(idx)
             shape, nontrivial, w = sampled_case(ctx, rng, idx)
